@@ -1,9 +1,10 @@
 import Rustic.Model.Index
+import Rustic.Model.IndexLoad
 import Rustic.Model.PackU32
 import Driver.Util
 /- Driver channel `c17` — see harness/src/c17.rs for the op-line grammar and the observation format. -/
 namespace Driver.C17
-open Rustic.Pack Rustic.Index Driver
+open Rustic.Pack Rustic.Index Rustic.IndexLoad Driver
 
 /-- 64 hex digits → the big-endian value (order-isomorphic to the byte-wise `Ord` of `Id`). -/
 def parseId (s : String) : Option Nat :=
@@ -47,16 +48,58 @@ def parsePack (s : String) : Option IndexPack :=
 def parsePacks (s : String) : Option (List IndexPack) :=
   if s = "-" then some [] else (s.splitOn ",").mapM parsePack
 
-def parseFile (s : String) : Option IndexFile :=
-  match s.splitOn "|" with
-  | [p, d] =>
-    match parsePacks p, parsePacks d with
-    | some p, some d => some { packs := p, packsToDelete := d }
-    | _, _ => none
+/-- the optional third field of a file token: how fetching this file fails (`repo` source only) -/
+def parseFault (s : String) : Option (IndexFile → RepoFile) :=
+  let param (n : String) : Bool := n.toNat?.isSome
+  match s.splitOn "." with
+  | ["read"] => some fun f => { readFails := true, stored := .sealed (.file f) }
+  | ["flip", n] => if param n then some fun _ => { readFails := false, stored := .damaged } else none
+  | ["trunc", n] => if param n then some fun _ => { readFails := false, stored := .damaged } else none
+  | ["junk"] => some fun _ => { readFails := false, stored := .sealed .unsupported }
+  | ["badzstd"] => some fun _ => { readFails := false, stored := .sealed .unsupported }
+  | ["notjson"] => some fun _ => { readFails := false, stored := .sealed .notIndexJson }
+  | ["notindex"] => some fun _ => { readFails := false, stored := .sealed .notIndexJson }
   | _ => none
 
-def parseFiles (s : String) : Option (List IndexFile) :=
+/-- file token → (content, what the repository stores for it, has a fault) -/
+def parseFile (s : String) : Option (IndexFile × RepoFile × Bool) :=
+  let mk (p d : String) (fault : Option String) : Option (IndexFile × RepoFile × Bool) :=
+    match parsePacks p, parsePacks d with
+    | some p, some d =>
+      let f : IndexFile := { packs := p, packsToDelete := d }
+      match fault with
+      | none => some (f, { readFails := false, stored := .sealed (.file f) }, false)
+      | some ft => (parseFault ft).map fun g => (f, g f, true)
+    | _, _ => none
+  match s.splitOn "|" with
+  | [p, d] => mk p d none
+  | [p, d, ft] => mk p d (some ft)
+  | _ => none
+
+def parseFiles (s : String) : Option (List (IndexFile × RepoFile × Bool)) :=
   if s = "-" then some [] else (s.splitOn "/").mapM parseFile
+
+/-- the content part `<packs>|<packs_to_delete>` of a file token (equal content = equal index id = one file) -/
+def contentPart (s : String) : String :=
+  match s.splitOn "|" with
+  | p :: d :: _ => p ++ "|" ++ d
+  | _ => s
+
+def errName : LoadErr → String
+  | .backend => "Backend"
+  | .cryptography => "Cryptography"
+  | .internal => "Internal"
+
+/-- which error a failed load reports depends on the stream order when several files fail differently: the canonical
+observation names the one kind, or all candidate kinds (the harness checks membership on the real result). -/
+def errObs (rfs : List RepoFile) : String :=
+  let has (k : LoadErr) : Bool := rfs.any fun r => match getFile r with
+    | .error e => e == k
+    | .ok _ => false
+  let kinds := ([LoadErr.backend, .cryptography, .internal].filter has).map errName
+  match kinds with
+  | [k] => "err:" ++ k
+  | _ => "err:one-of:" ++ ",".intercalate kinds
 
 def ulenStr : Option Nat → String
   | none => "-"
@@ -112,10 +155,17 @@ def handle : List String → String
       else if mode = "trees" then some (.onlyTrees, false) else if mode = "dropdata" then some (.full, true) else none
     let qs? := if queries = "-" then some [] else (queries.splitOn ",").mapM parseId
     match mode?, parseFiles files, qs? with
-    | some (m, dd), some fs, some qs =>
+    | some (m, dd), some parsed, some qs =>
+      let fs := parsed.map (·.1)
+      let rfs := parsed.map (·.2.1)
+      let faulty := parsed.any (·.2.2)
       if src ≠ "direct" ∧ src ≠ "repo" then "bad-op"
-      else if src = "repo" ∧ (mode = "trees" ∨ !hasNoDup (files.splitOn "/")) then "bad-op" else
-      let idx0 := load m fs
+      else if src = "direct" ∧ faulty then "bad-op"
+      else if src = "repo" ∧ (mode = "trees" ∨ !hasNoDup ((files.splitOn "/").map contentPart)) then "bad-op" else
+      -- `direct`: the collector hook on the given files; `repo`: the load over the per-file fetch results
+      match (if src = "repo" then loadRepo m rfs else .ok (load m fs)) with
+      | .error _ => errObs rfs
+      | .ok idx0 =>
       let idx := if dd then idx0.dropData else idx0
       let ps := unmarked fs
       let q := qs.map fun id =>
